@@ -70,6 +70,59 @@ def run(ctx):
 
 
 # ---------------------------------------------------------------------------------------------------- R2
+def fallback_scan(ctx, F, rule):
+    """The rewind-and-scan fallback of do_readdir (cookie the kernel cannot seek to): batches are read until the one holding
+    the cookie was consumed; the loop ends on error, on end of directory, with the first batch after the cookie, or with the
+    rest of the cookie's own batch when that is not empty - never with an empty reply while entries remain."""
+    from rules import c10
+    b = F.method(PFS, "do_readdir")
+    v = vf.VF(b, inline_depth=0, opaque_loops=True)
+    loops = []
+    for h in sorted(v.loop_headers()):
+        sw = c10.loop_switches(b, v, h)
+        if any("SYS_getdents64" in c_[0] for c_ in sw):
+            loops.append((h, sw))
+    if not ctx.check(rule, "fallback-scan/loop", len(loops) == 1, "do_readdir: %d scanning loops around getdents64 (one fallback loop expected)" % len(loops), loc=b.loc()):
+        return
+    h, sw = loops[0]
+    want = [
+        ("error", lambda t: t.startswith("Lt(libc::syscall(SYS_getdents64") and t.endswith(", 0)"), {0: "loop", "otherwise": "exit"}),
+        ("end-of-directory", lambda t: t.startswith("Eq(0, libc::syscall(SYS_getdents64"), {0: "loop", "otherwise": "exit"}),
+        ("batch-after-cookie", lambda t: t == "loop(found)", {0: "loop", "otherwise": "exit"}),
+        ("cookie-search", lambda t: t.startswith("PassthroughFs::skip_to_cookie(") and t.endswith(", offset)"), {0: "loop", "otherwise": "loop"}),
+        ("rest-of-cookie-batch", lambda t: t.startswith("Vec::is_empty(") and "loop(buf)" in t, {0: "exit", "otherwise": "loop"}),
+    ]
+    used = set()
+    for (nm, pred, edges) in want:
+        m = [x for x in sw if pred(x[0])]
+        ok = len(m) == 1 and m[0][1] == edges
+        if m:
+            used.add(m[0][2])
+        ctx.check(rule, "fallback-scan/" + nm, ok, "do_readdir fallback scan: the `%s` decision is %s; required edges %s" %
+                  (nm, [(x[0][:60], x[1]) for x in m] or "missing", edges), loc=b.loc())
+    other = [x for x in sw if x[2] not in used]
+    ctx.check(rule, "fallback-scan/no-other-decision", not other, "do_readdir fallback scan decides on %s as well" % [x[0][:80] for x in other], loc=b.loc())
+    # the rest-of-batch test is made only after the cookie was found in this batch; a batch without the cookie is discarded
+    e = [x for x in sw if x[0].startswith("Vec::is_empty(")]
+    if e:
+        ok = any(t.startswith("PassthroughFs::skip_to_cookie(") and l != 0 for (t, l) in e[0][3])
+        ctx.check(rule, "fallback-scan/rest-only-after-hit", ok, "the emptiness test of the batch is not under `skip_to_cookie(..) == true`", loc=b.loc())
+    cl = [c for c in live_calls(b) if c.name == "clear" and b.dominates(h, c.bb) and b.can_reach(c.bb, h)]
+    ok = len(cl) == 1 and any(R(x, b, v).startswith("PassthroughFs::skip_to_cookie(") and l == 0 for (x, l, u) in v.guards(cl[0].bb))
+    ctx.check(rule, "fallback-scan/miss-discards-batch", ok, "a batch that does not contain the cookie must be discarded (buf.clear()) before the next one is read", loc=b.loc())
+    fl = local_named(b, "found")
+    fd = v.loop_def(fl, h) if fl is not None else None
+    if fd is not None:
+        init, step = fd
+        t = " ; ".join(R(x_[1], b, v) for x_ in step) if isinstance(step, list) else R(step, b, v)
+        init = init[0][1] if isinstance(init, list) and len(init) == 1 else init
+        arms = [x.strip() for x in t.strip("phi{}").split(" | ")]
+        keep = [x for x in arms if x.startswith("!PassthroughFs::skip_to_cookie(") and x.endswith("=> loop(found)")]
+        hit = [x for x in arms if x.startswith("PassthroughFs::skip_to_cookie(") and x.endswith("=> 1")]
+        ctx.check(rule, "fallback-scan/found-set-on-hit", R(init, b, v) == "0" and len(keep) == 1 and len(hit) == 1 and len(arms) == 2,
+                  "`found` must start false and become true exactly when skip_to_cookie reports the cookie (step: %s)" % t[:200], loc=b.loc())
+
+
 def r2_cookie(ctx, F):
     rule = "R2-cookie-cache"
     HM = "passthrough::HandleMap"
@@ -225,6 +278,7 @@ def r2_cookie(ctx, F):
     g0 = [(R(x, b), l) for (x, l, u) in v.guards(gf.bb)]
     ctx.check(rule, "do_readdir/size0", ("Ne(0, size)", "otherwise") in g0, "do_readdir no longer answers size == 0 with an empty listing up front", loc=b.loc())
 
+    fallback_scan(ctx, F, rule)
     # other position movers on a handle's fd
     movers = {}
     for k, x in sorted(F.fns.items()):
@@ -395,6 +449,23 @@ def err_first_only(ctx, F, rule):
     ok = len(hs) == 1 and ("Eq(impl [T]::len(loop(rem)), impl [T]::len(" in rt or "Eq(impl [T]::len(" in rt and "orig" in rt or _err_guard(b, v, hs[0]))
     ctx.check(rule, "error-only-if-first", ok,
               "do_readdir: an error from the consumer must surface only when no record was delivered before it", loc=b.loc())
+    # polarity: inside the record loop `Err` is returned exactly under `rem.len() == <length before the first record>`, and the
+    # complementary arm returns Ok(())
+    if len(hs) == 1:
+        errs, oks = [], []
+        for bb in sorted(b.reachable()):
+            if not b.dominates(hs[0], bb):
+                continue
+            for s_ in b.stmts(bb):
+                if s_[0] == "=" and s_[1] == [0] and s_[2][0] == "agg" and isinstance(s_[2][1], dict) and s_[2][1].get("variant") in ("Ok", "Err"):
+                    g = [(R(x, b, v), l) for (x, l, u) in v.guards(bb)]
+                    same = [(t, l) for (t, l) in g if t.startswith(("Eq(impl [T]::len(", "Ne(impl [T]::len(")) and "impl [T]::len(loop(rem))" in t]
+                    (errs if s_[2][1]["variant"] == "Err" else oks).append(same)
+        eok = len(errs) == 1 and any((t.startswith("Eq(") and l != 0) or (t.startswith("Ne(") and l == 0) for (t, l) in errs[0])
+        ook = any(any((t.startswith("Ne(") and l != 0) or (t.startswith("Eq(") and l == 0) for (t, l) in o) for o in oks)
+        ctx.check(rule, "error-only-if-first/polarity", eok and ook,
+                  "do_readdir returns the consumer's error under %s and Ok under %s: the error may surface only while nothing was delivered (rem.len() == original length)"
+                  % ([[(t[:40], l) for (t, l) in e] for e in errs], [[(t[:40], l) for (t, l) in o] for o in oks if o]), loc=b.loc())
 
 
 def nonzero_guard(gg):
